@@ -293,7 +293,7 @@ def rule_b(repo, chk):
         for n in walk_no_defs(f.node):
             if isinstance(n, ast.Assign):
                 for recv, attr, _v in pat.attr_store(n):
-                    if recv in ('event', 'ev') and attr.startswith('node_') or (recv in ('event', 'ev') and attr in ('success_channels', 'remote_finish', 'errors')):
+                    if recv.isidentifier() and recv != 'self' and (attr.startswith('node_') or attr in ('success_channels', 'remote_finish', 'errors')):
                         own.add(attr)
     miss2 = sorted(a for a in own if a not in excl and a.startswith('node_') or (a == 'success_channels' and a not in excl))
     chk.ob('b', f'{NODE_UTILS}::META_EXCLUDE', 'the node layer\'s own routing attributes are excluded as well', not miss2, NODE_UTILS, detail=f'{sorted(own)}; missing {miss2}',
@@ -352,9 +352,15 @@ def rule_c_g(repo, chk):
     for n in gp.nodes:
         if n.kind == 'stmt' and any(call_name(c) == 'setattr' for c in calls_in(n.ast)):
             loops = [a for k, a in n.ctx if k == 'loop']
-            ok = bool(loops) and src(loops[-1].iter) == 'meta.items()'
-            defs = [m for m in gp.nodes if m.kind == 'stmt' and isinstance(m.ast, ast.Assign) and 'meta' in Q.node_defs(m)]
-            ok = ok and bool(defs) and all('load_value(' in src(m.ast.value) for m in defs)
+            # the dict that is applied: the one the loop iterates over with .items(); it must come out of load_value (4th component)
+            mv_ = None
+            if loops and isinstance(loops[-1].iter, ast.Call) and isinstance(loops[-1].iter.func, ast.Attribute) and loops[-1].iter.func.attr == 'items' \
+                    and isinstance(loops[-1].iter.func.value, ast.Name):
+                mv_ = loops[-1].iter.func.value.id
+            ok = mv_ is not None
+            defs = [m for m in gp.nodes if m.kind == 'stmt' and isinstance(m.ast, ast.Assign) and mv_ in Q.node_defs(m)] if mv_ else []
+            ok = ok and bool(defs) and all('load_value(' in src(m.ast.value) and isinstance(m.ast.targets[0], ast.Tuple) and len(m.ast.targets[0].elts) == 4
+                                           and src(m.ast.targets[0].elts[3]) == mv_ for m in defs)
             chk.ob('g', pv.ref, 'the value path applies only the meta data filtered by load_value', ok, loc(pv, n.ast), discr='value-path-filtered')
 
 
@@ -417,8 +423,17 @@ def rule_tables(repo, chk):
             chk.ob('j', l_.ref, 'load_value returns (value, id, errors, meta) from the fields of the same name', ok, loc(l_, l_.node), discr='fields:load_value')
     pv = _m(repo.cls(NODE_PROTOCOL, 'Protocol'), '__process_packet_value')
     unp = [n for n in walk_no_defs(pv.node) if isinstance(n, ast.Assign) and isinstance(n.targets[0], ast.Tuple) and 'load_value(' in src(n.value)]
-    ok = bool(unp) and [src(x) for x in unp[0].targets[0].elts] == ['value', 'id', 'error', 'meta']
-    uses = 'self.__events.get(id)' in src(pv.node) and 'setValue(value)' in src(pv.node) and 'ev.errors = error' in src(pv.node)
+    ok = bool(unp) and len(unp[0].targets[0].elts) == 4 and all(isinstance(x, ast.Name) for x in unp[0].targets[0].elts)
+    uses = False
+    if ok:
+        v_, i_, e_, _m_ = [x.id for x in unp[0].targets[0].elts]
+        body = src(pv.node)
+        # the in-flight event looked up by the id of the packet; value and error flag stored on it
+        look = [n for n in walk_no_defs(pv.node) if isinstance(n, ast.Assign) and isinstance(n.targets[0], ast.Name) and
+                src(n.value).replace(' ', '') in (f'self.__events.get({i_})', f'self.__events[{i_}]')]
+        if look:
+            evn = look[0].targets[0].id
+            uses = f'setValue({v_})' in body and any(isinstance(n, ast.Assign) and src(n.targets[0]) == f'{evn}.errors' and src(n.value) == e_ for n in walk_no_defs(pv.node))
     chk.ob('j', pv.ref, 'a received result is matched to the in-flight call by its id and stores value and error flag on that call\'s event', ok and uses,
            loc(pv, pv.node), discr='result-matched-by-id')
 
@@ -483,10 +498,16 @@ def rule_d_e(repo, chk):
     rc = need(_m(cls, '__process_packet_call'), 'C19.d: __process_packet_call missing')
     chk.touch(rc)
     gr = rc.cfg()
-    fires = [n for n in gr.nodes if n.kind == 'stmt' and any(src(e) == 'event' for _c, _r, e in pat.fire_calls(n.ast))]
+    # the received event and its call id: what load_event() is unpacked into
+    rev, rid = 'event', 'id'
+    for n_ in walk_no_defs(rc.node):
+        if isinstance(n_, ast.Assign) and isinstance(n_.value, ast.Call) and call_name(n_.value) == 'load_event' and isinstance(n_.targets[0], ast.Tuple) \
+                and len(n_.targets[0].elts) == 2 and all(isinstance(x, ast.Name) for x in n_.targets[0].elts):
+            rev, rid = n_.targets[0].elts[0].id, n_.targets[0].elts[1].id
+    fires = [n for n in gr.nodes if n.kind == 'stmt' and any(src(e) == rev for _c, _r, e in pat.fire_calls(n.ast))]
     need(fires, 'C19.d: received events are never dispatched')
     fw = 'self.__receive_event_firewall'
-    passed = pat.test_edge(lambda t, pol: (pol == 'F' and src(t) == fw) or (pol == 'T' and src(t).startswith(f'{fw}(event')))
+    passed = pat.test_edge(lambda t, pol: (pol == 'F' and src(t) == fw) or (pol == 'T' and src(t).startswith(f'{fw}({rev}')))
     for n in fires:
         q = pat.guarded_by(gr, n, passed)
         chk.ob('d', rc.ref, 'a received event is dispatched only if no receive firewall is configured or the firewall accepted it', q is None, loc(rc, n.ast),
@@ -494,15 +515,15 @@ def rule_d_e(repo, chk):
         # e: feedback requested before firing
         via_exc = _failure_via_exception(cls, chk)
         for flag, label in (('success', 'success'), ('failure', 'failure')):
-            st = [m for m in gr.nodes if m.kind == 'stmt' and 'event' in pat.stores_attr(m.ast, flag, True)]
+            st = [m for m in gr.nodes if m.kind == 'stmt' and rev in pat.stores_attr(m.ast, flag, True)]
             q = Q.reachable_without(gr, n, avoid_node=lambda m: m in st)
             ok_ = (q is None and bool(st)) or (label == 'failure' and via_exc)
             chk.ob('e', rc.ref, f'the remote event is marked for {label} feedback before it is dispatched (so that its outcome can be sent back)' +
                    (', or its failure is reported from the exception event of the call' if label == 'failure' else ''), ok_,
                    loc(rc, n.ast), discr=f'feedback-requested:{label}')
-        st = [m for m in gr.nodes if m.kind == 'stmt' and 'event' in pat.stores_attr(m.ast, 'success_channels') and "'node_result'" in src(m.ast.value)]
+        st = [m for m in gr.nodes if m.kind == 'stmt' and rev in pat.stores_attr(m.ast, 'success_channels') and "'node_result'" in src(m.ast.value)]
         chk.ob('e', rc.ref, 'success feedback is routed to the result channel', bool(st), loc(rc, n.ast), discr='success-routed')
-        ids = [m for m in gr.nodes if m.kind == 'stmt' and 'event' in pat.stores_attr(m.ast, 'node_call_id') and src(m.ast.value) == 'id']
+        ids = [m for m in gr.nodes if m.kind == 'stmt' and rev in pat.stores_attr(m.ast, 'node_call_id') and src(m.ast.value) == rid]
         chk.ob('e', rc.ref, 'the call id of the peer is remembered on the event', bool(ids), loc(rc, n.ast), discr='call-id')
     rh = need(_m(cls, 'result_handler'), 'C19.e: result_handler missing')
     chk.touch(rh)
@@ -516,7 +537,7 @@ def rule_d_e(repo, chk):
            ('_failure' in names and '_success' in names) or ('_success' in names and _failure_via_exception(cls, None)), loc(rh, rh.node),
            detail=f'suffixes handled: {sorted(n for n in names if n.startswith("_"))}', discr='failure-relayed')
     # blocked by the receive firewall: an (empty) result is still sent so that the caller is not left waiting
-    blocked = [e for n in gr.nodes if n.kind == 'test' and src(n.ast).startswith(f'{fw}(event') for e in n.succ if e.kind == 'F']
+    blocked = [e for n in gr.nodes if n.kind == 'test' and src(n.ast).startswith(f'{fw}({rev}') for e in n.succ if e.kind == 'F']
     for e in blocked:
         sr = [m for m in gr.nodes if m.kind == 'stmt' and any(r == 'self' for r, _c in pat.method_calls(m.ast, 'send_result'))]
         p = Q.escapes(gr, [e.dst], lambda m: m in sr) if e.dst not in sr else None
